@@ -446,6 +446,9 @@ impl Ctx {
         counting: bool,
     ) -> Result<(), (String, String)> {
         slot_enter(&self.current_section.lock().unwrap(), || serde_json::to_string(case).unwrap_or_default());
+        // one case in eight (a pure function of the case value, so a replay behaves alike) runs with every log statement of the
+        // code under test enabled down to TRACE, as when an operator turns on verbose logging; the others at INFO
+        set_thread_log_level(if hash_of(case) % 8 == 0 { 5 } else { 3 });
         let out = match quiet_catch(|| f(case)) {
             Ok(o) => o,
             Err(p) => Outcome::violation("panic", format!("harness/code panicked: {p}")),
@@ -834,10 +837,20 @@ pub fn pick_index(byte: u8, len: usize) -> usize {
 
 
 // ------------------------------------------------------------------ log sink
+thread_local! {
+    static LOG_LEVEL_TL: std::cell::Cell<u8> = const { std::cell::Cell::new(3) };
+}
+/// level for threads that are not harness shard threads (runtime workers of the loopback rigs): 3 = INFO
+pub static LOG_LEVEL_GLOBAL: std::sync::atomic::AtomicU8 = std::sync::atomic::AtomicU8::new(3);
+/// 1 ERROR .. 5 TRACE, for log statements executed on the calling thread
+pub fn set_thread_log_level(l: u8) {
+    LOG_LEVEL_TL.with(|c| c.set(l));
+}
+
 /// The code under test logs through `tracing`; without a subscriber the arguments of its log statements are never evaluated,
-/// with one (as in the real client and server binaries) they are. This sink enables ERROR/WARN/INFO events - the levels a
-/// production deployment runs at - and formats every field, so that a log statement that panics or misbehaves on unusual
-/// data is executed as it would be in production. DEBUG/TRACE stay off (they dominate the hot paths).
+/// with one (as in the real client and server binaries) they are. This sink formats every field of every enabled event, so that a log statement that panics, blocks or misbehaves on unusual
+/// data is executed as it would be in production. The level is per thread: INFO by default, TRACE for one case in eight
+/// (see `Ctx::judge`).
 pub fn install_log_sink() {
     use tracing::{span, Event, Metadata, Subscriber};
     struct Sink;
@@ -847,12 +860,31 @@ pub fn install_log_sink() {
             self.0 += format!("{value:?}").len();
         }
     }
+    fn rank(l: &tracing::Level) -> u8 {
+        match *l {
+            tracing::Level::ERROR => 1,
+            tracing::Level::WARN => 2,
+            tracing::Level::INFO => 3,
+            tracing::Level::DEBUG => 4,
+            tracing::Level::TRACE => 5,
+        }
+    }
     impl Subscriber for Sink {
         fn enabled(&self, m: &Metadata<'_>) -> bool {
-            *m.level() <= tracing::Level::INFO
+            // spans stay at INFO: the crate's DEBUG span of the connection task records `tokio::task::id()`, which panics when
+            // the task future is polled outside a tokio task (simnet's executor, a plain block_on) - an artefact of where the
+            // harness polls, noted in DESIGN.md, not a statement of any property
+            if m.is_span() && rank(m.level()) > 3 {
+                return false;
+            }
+            rank(m.level()) <= LOG_LEVEL_TL.with(|l| l.get()).max(LOG_LEVEL_GLOBAL.load(std::sync::atomic::Ordering::Relaxed))
+        }
+        fn register_callsite(&self, _m: &'static Metadata<'static>) -> tracing::subscriber::Interest {
+            // the level differs per thread and per case: ask `enabled` every time
+            tracing::subscriber::Interest::sometimes()
         }
         fn max_level_hint(&self) -> Option<tracing::level_filters::LevelFilter> {
-            Some(tracing::level_filters::LevelFilter::INFO)
+            Some(tracing::level_filters::LevelFilter::TRACE)
         }
         fn new_span(&self, attrs: &span::Attributes<'_>) -> span::Id {
             let mut f = Fmt(0);
